@@ -247,6 +247,123 @@ def run(loader, R, tier):
         "new/delete expressions inside symengine_rcp.h": anchor})
     R.floor("new/delete inside symengine_rcp.h (positive anchor)", anchor, 2)
 
+    # ---------------------------------------------------------------- R40.4
+    # use after erase: a reference (or raw pointer) local bound to an element
+    # reached through an iterator does not own it; once `c.erase(it)` has run
+    # the container may have dropped the last owner, so the local must not be
+    # used afterwards.  (An owning copy — an RCP local — is the safe idiom.)
+    R.rule("R40.4", "a non-owning reference obtained through an iterator is "
+                    "not used after that iterator was erased")
+    nref = 0
+    ncontrol = 0
+    for u, f in prog.functions.items():
+        control = f["qn"].startswith("verif_positive::")
+        if f.get("dependent") or f.get("tk") == "pattern" \
+                or not f.get("body") or "/utilities/" in f["file"] \
+                or not (control or "/symengine/" in f["file"]):
+            continue
+        def _it(a):
+            while a is not None and a.get("k") in ("ctor", "cast") \
+                    and len([x for x in a.get("a", ())
+                             if x.get("k") != "defarg"]) == 1:
+                a = [x for x in a["a"] if x.get("k") != "defarg"][0]
+            if a is not None and a.get("k") == "ref" \
+                    and a.get("d") == "local":
+                return a["n"]
+            return None
+        order = list(walk(f["body"]))
+        pos = {id(n): i for i, n in enumerate(order)}
+        erases = [(pos[id(n)], _it(n["a"][0]), n.get("l")) for n in order
+                  if n.get("k") == "mcall" and n.get("n") == "erase"
+                  and len(n.get("a", ())) == 1 and _it(n["a"][0])]
+        if not erases:
+            continue
+        for d in order:
+            if d.get("k") != "decl":
+                continue
+            for v in d.get("v", ()):
+                t = (v.get("t") or "").strip()
+                if not (t.endswith("&") or t.endswith("*")) \
+                        or v.get("i") is None:
+                    continue
+                its = {x["n"] for x in walk(v["i"]) if x.get("k") == "ref"
+                       and x.get("d") == "local"}
+                for epos, itname, eline in erases:
+                    if itname not in its or epos <= pos[id(d)]:
+                        continue
+                    nref += 1
+                    later = [eline for x in order
+                             if x.get("k") == "ref" and x.get("n") == v["n"]
+                             and x.get("d") == "local"
+                             and pos[id(x)] > epos]
+                    key = "%s:%s" % (short(f["qn"]), v["n"])
+                    R.instance("R40.4", key, sample={
+                        "reference": v["n"], "bound_through": itname,
+                        "erase_line": eline, "uses_after": later[:3]})
+                    if later and control:
+                        ncontrol += 1
+                        continue
+                    if later:
+                        R.violation(
+                            "R40.4", key, prog.loc(f, later[0]),
+                            "%s binds the non-owning `%s %s` through the "
+                            "iterator `%s`, erases that iterator at line %s "
+                            "and uses `%s` again at line %s: if the "
+                            "container held the last reference the object "
+                            "is already freed" % (
+                                short(f["qn"]), short(t), v["n"], itname,
+                                eline, v["n"], later[0]))
+    R.floor("R40.4 positive control (fixtures/tu/positive_controls.cpp)",
+            ncontrol, 1)
+    R.instance("R40.4", "functions with erase(iterator) scanned",
+               nontrivial=False, sample={"references_through_erased_"
+                                         "iterators": nref})
+
+    # ---------------------------------------------------------------- R40.5
+    # acquire before release in RCP copy assignment: the new pointee's count
+    # is incremented before the old pointee is released, otherwise assigning
+    # a handle from something the old pointee (solely) owns frees the source
+    # first (e = e->get_args()[0]).
+    R.rule("R40.5", "RCP copy assignment increments the new reference count "
+                    "before it releases the old object")
+    nassign = 0
+    for u, f in prog.functions.items():
+        if not f["file"].endswith("symengine_rcp.h") or not f.get("body") \
+                or f.get("n") != "operator=" or f.get("dependent") \
+                or not (f.get("cls") or "").startswith("SymEngine::RCP<"):
+            continue
+        ps = f.get("params", ())
+        if len(ps) != 1 or ps[0]["t"].rstrip().endswith("&&"):
+            continue                    # move assignment transfers ownership
+        if nassign and f.get("tk") == "inst" and nassign > 40:
+            continue
+        acquire = release = None
+        for line, n in enumerate(walk(f["body"]), 1):
+            txt = show(n)
+            if n.get("k") in ("un", "op") and n.get("op") == "++" \
+                    and "refcount_" in txt and acquire is None:
+                acquire = line
+            is_rel = (n.get("k") in ("un", "op") and n.get("op") == "--"
+                      and "refcount_" in txt) or n.get("k") == "delete" \
+                or (n.get("k") == "mcall" and n.get("n") == "reset")
+            if is_rel and release is None:
+                release = line
+        nassign += 1
+        if nassign <= 3:
+            R.instance("R40.5", "%s@%s" % (short(f["cls"])[:40], f["line"]),
+                       sample={"acquire_line": acquire,
+                               "first_release_line": release})
+        if release is not None and (acquire is None or acquire > release):
+            R.violation(
+                "R40.5", "RCP::operator=", prog.loc(f),
+                "RCP copy assignment releases the old object (step %s) "
+                "before it has incremented the count of the new one%s: "
+                "assigning from a handle that only the old object keeps "
+                "alive reads freed memory" % (
+                    release, " (step %s)" % acquire if acquire else ""))
+            break
+    R.floor("RCP copy-assignment instantiations", nassign, 3)
+
 
 MANIFEST = dict(
     technique="guard-dominance (typestate) rule for unchecked down-casts, "
